@@ -9,6 +9,20 @@ import rowsops as RO
 PID = 'C06'
 FLOAT_KINDS = {'ins-rem', 'ins-rem-method'}      # float-mode companion; 'refine-rem' asks for the removal of a midpoint the harness computes exactly, which in doubles need not be bit-identical to the refined knot
 FLOAT_TOL = 1e-7
+
+
+def FLOAT_FILTER(c):
+    """the float-mode companion leaves out insert / remove next to an existing knot (closer than 1e-3): the alphas then have
+    denominators of that size and the removal in doubles is ill-conditioned - a deviation above FLOAT_TOL there says nothing about
+    the code (exact mode judges these cases; seed 13 / 14 of the sweep after round 7 raised exactly this false alarm)"""
+    d = c.data
+    try:
+        for (p, kv, n), u in zip(S.dirs(d['shape']), d['prm']):
+            if u is not None and any(x != u and abs(x - u) < F(1, 1000) for x in kv):
+                return False
+    except Exception:
+        return True
+    return True
 STATS = G.STATS
 PARTIAL = [
     "proved in Lean (Props/C06.lean, every degree / position / prior multiplicity / count): r insertions of a knot followed "
